@@ -634,6 +634,6 @@ theorem schedule_unobservable_with_destructors (sched : Nat → Bool) (ops : Lis
   have h := runOps_sim sched ops
   refine ⟨h.out, ?_⟩
   unfold finalDestructors
-  exact (fold_assign_sim [0, 1, 2, 3] _ _ (sim_clear_out h)).out
+  exact (fold_assign_sim [3, 2, 1, 0] _ _ (sim_clear_out h)).out
 
 end BlochVerif.Life
